@@ -25,16 +25,17 @@ def run (op : String) (j : Json) : Option Json :=
     let cur := (arr j "current").map toObj
     let tgt := (arr j "target").map toObj
     let rel := str j "rel"; let ns := str j "ns"
+    let rej := (arr j "reject").map asStr
     match str j "kind" with
     | "install" =>
-      let r := installCluster rel ns (boolv j "takeOwnership") (boolv j "force") (boolv j "dryRun") tgt s
+      let r := installCluster rel ns (boolv j "takeOwnership") (boolv j "force") (boolv j "dryRun") tgt s rej
       some <| Json.mkObj [("store", jlist ofObj r.store), ("log", jlist ofEv r.log), ("ok", Json.bool r.ok)]
     | "upgrade" =>
-      let r := upgradeCluster rel ns (boolv j "takeOwnership") (boolv j "force") (boolv j "dryRun") cur tgt s
+      let r := upgradeCluster rel ns (boolv j "takeOwnership") (boolv j "force") (boolv j "dryRun") cur tgt s rej
       some <| Json.mkObj [("store", jlist ofObj r.store), ("log", jlist ofEv r.log), ("ok", Json.bool r.ok)]
     | "rollback" =>
       if boolv j "dryRun" then some <| Json.mkObj [("store", jlist ofObj s), ("log", Json.arr #[]), ("ok", Json.bool true)] else
-      let r := rollbackCluster rel ns (boolv j "force") cur tgt s
+      let r := rollbackCluster rel ns (boolv j "force") cur tgt s rej
       some <| Json.mkObj [("store", jlist ofObj r.store), ("log", jlist ofEv r.log), ("ok", Json.bool r.ok)]
     | _ =>
       if boolv j "dryRun" then some <| Json.mkObj [("store", jlist ofObj s), ("log", Json.arr #[]), ("ok", Json.bool true)] else
